@@ -144,8 +144,10 @@ def check(run):
         run.check(len(tk) == 1, 'R2k', 'serve-front', '%s<%s>' % (ol.norm, tag), ol.loc(), 'the entry served is not the front one', 'serves front()')
         inv = [f for f in handlers.flows_in(fx, ol) if f.kind == 'invoke']
         arms = q.sites(ol, lambda f: [c for c in f.calls() if (q.callee_name(c) or '').endswith('high_resolution_timer::expires_at') and c.get('args') and q.render(f, c['args'][0]) == 'm_queue.front().completion_time'])
-        rets = [r for r in q.returns(ol) if any(q.render(ol, a) in ('empty', 'm_queue.empty()') and p for a, p in q.guards_at(ol, r))]
-        run.check(bool(inv) and all(q.must_follow(ol, f.site, arms + rets) for f in inv), 'R10', 'resolver-timer', '%s<%s>' % (ol.norm, tag), ol.loc(), 'after serving an entry the timer is not re-armed for the next one on every path where the queue is non-empty', 're-armed unless empty')
+        # in the abstract state "entries remain after the pop" (the sampled flag `empty` is false) every path from the
+        # handler invocation to the exit re-arms the timer; branches on the flag are followed along that edge only
+        remain = lambda atom: {'empty': False, 'm_queue.empty()': False, 'm_queue.size()': True}.get(q.render(ol, q.strip_casts(atom)))
+        run.check(bool(inv) and bool(arms) and not any(q.exit_reachable_under(ol, f.site, arms, remain) for f in inv), 'R10', 'resolver-timer', '%s<%s>' % (ol.norm, tag), ol.loc(), 'after serving an entry the timer is not re-armed for the next one on every path where the queue is non-empty', 're-armed unless empty')
         ed = [v for v in [q.local_var(ol, 'empty')] if v]
         if ed:
             run.check(q.render(ol, ed[0]['init']) == 'm_queue.empty()' and all(q.precedes(ol, er[0], n) for n in ol.all_nodes() if n['k'] == 'decl' and any(v is ed[0] for v in n['vars'])) if er else False,
